@@ -354,6 +354,14 @@ func (c *ctx) modes(what string, in []byte, j uint64, stats bool, parts []int, m
 		}
 		k := j*2 + uint64(mi)
 		c.refToLib(what, in, canon, crc, lzwork.Sources[k%uint64(len(lzwork.Sources))], lzwork.PickReadPlan(k/2+uint64(3*mi), c.seed))
+		if len(modes) == 1 {
+			// the single-mode families (rebuild, align) are about one moment inside the stream: read them with a
+			// large and a tiny buffer as well, so that buffer-size dependent paths all meet that moment
+			c.refToLib(what, in, canon, crc, lzwork.Sources[0], lzwork.ReadPlan{Kind: "fixed", K: 4096})
+			if len(in) <= 8192 {
+				c.refToLib(what, in, canon, crc, lzwork.Sources[(k+1)%uint64(len(lzwork.Sources))], lzwork.ReadPlan{Kind: "fixed", K: 1})
+			}
+		}
 	}
 }
 
